@@ -371,6 +371,32 @@ def _copy_node(n):
     return {k: (_copy_node(v) if isinstance(v, (dict, list)) else v) for k, v in n.items() if not k.startswith("_")}
 
 
+_PURE_CALLS = ("front", "back", "size", "begin", "end", "cbegin", "cend", "data", "get", "empty")
+
+
+def _pure_arg(n):
+    """literals, variables, and read-only accessor chains on them"""
+    n = strip(n)
+    if n is None:
+        return False
+    k = n.get("k")
+    if k in ("IntegerLiteral", "FloatingLiteral", "CXXBoolLiteralExpr", "CXXNullPtrLiteralExpr", "DeclRefExpr", "CXXThisExpr"):
+        return True
+    if k == "UnaryOperator" and n.get("op") in ("-", "+", "!"):
+        return _pure_arg(kids(n)[0])
+    if k in ("MemberExpr", "CXXDependentScopeMemberExpr"):
+        return not kids(n) or _pure_arg(kids(n)[0])
+    if k in ("ParenExpr",) or k.endswith("CastExpr"):
+        return len(kids(n)) == 1 and _pure_arg(kids(n)[0])
+    if k in ("ArraySubscriptExpr",):
+        return all(_pure_arg(c) for c in kids(n))
+    if k in ("CallExpr", "CXXMemberCallExpr"):
+        nm = callee_name(n) or ""
+        if (nm in _PURE_CALLS or nm.startswith("get")) and call_base(n) is not None and _pure_arg(call_base(n)) and all(_pure_arg(a) for a in call_args(n)):
+            return True
+    return False
+
+
 def expand_member_helpers(facts, fn, depth=3, _stack=()):
     """A copy of the function record in which every statement-level call of a member function of the same class
     (one definition, body available, no `return` other than a trailing one, not recursive) is replaced by the callee's
@@ -415,16 +441,27 @@ def expand_member_helpers(facts, fn, depth=3, _stack=()):
                     bind = []
                     pd = set()
                     subst = {}
+                    esub = {}
                     for p_, a in zip(g["params"], call_args(c)):
                         a0 = strip(a)
                         if a0 is not None and a0.get("k") == "DeclRefExpr":
                             subst[p_["did"]] = a0          # a plain variable / parameter of the caller: the callee's parameter IS that object
                             continue
+                        if _pure_arg(a0) and not any(y.get("k") in ("BinaryOperator", "CompoundAssignOperator", "UnaryOperator") and y.get("op") in ("=", "+=", "-=", "*=", "/=", "++", "--")
+                                                     and kids(y) and strip(kids(y)[0]).get("did") == p_["did"] for y in walk(gb)):
+                            esub[p_["did"]] = a0           # a side-effect free expression the callee only reads: the parameter is that value
+                            continue
                         pd.add(p_["did"])
                         bind.append({"k": "DeclStmt", "l": c.get("l"), "b": c.get("b"), "e": c.get("e"),
                                      "c": [{"k": "VarDecl", "name": p_["name"], "did": p_["did"], "t": p_["t"], "local": True, "initstyle": "c",
                                             "l": c.get("l"), "b": c.get("b"), "e": c.get("e"), "c": [rec(a)]}]})
-                    for x in walk(gb):
+                    for x in list(walk(gb)):
+                        if x.get("k") == "DeclRefExpr" and x.get("did") in esub:
+                            cp = _copy_node(esub[x["did"]])
+                            for k_ in list(x.keys()):
+                                del x[k_]
+                            x.update(cp)
+                            continue
                         if x.get("k") == "DeclRefExpr" and x.get("did") in pd:
                             x["dk"] = "Var"
                         if x.get("k") == "DeclRefExpr" and x.get("did") in subst:
